@@ -418,6 +418,7 @@ func (s *BgpServer) Serve() {
 			return
 		case op := <-s.mgmtCh:
 			tWait := tStart.Sub(op.timestamp)
+			verifYield("serve.beforeMgmtLock", nil)
 			s.shared.mu.Lock()
 			s.handleMGMTOp(op)
 			s.shared.mu.Unlock()
@@ -1350,6 +1351,11 @@ func (s *BgpServer) propagateUpdate(peer *peer, pathList []*table.Path) {
 			}
 
 			if dsts := rib.Update(path); len(dsts) > 0 {
+				if peer != nil {
+					verifYield("locked.propagate.beforeFanout", peer.fsm)
+				} else {
+					verifYield("locked.propagate.beforeFanout", nil)
+				}
 				s.propagateUpdateToNeighbors(rib, peer, path, dsts, true)
 			}
 		}(path)
